@@ -8,6 +8,7 @@ import (
 	"encoding/json"
 	"fmt"
 	"os"
+	"runtime/pprof"
 
 	"verifharness/checks/c12"
 	"verifharness/lib"
@@ -41,6 +42,14 @@ func main() {
 		fmt.Printf("REPLAY did not reproduce signature=%s\n", f.Signature)
 		os.Exit(0)
 	}
+	if pf := os.Getenv("VERIF_C12_PROF"); pf != "" {
+		f, err := os.Create(pf)
+		if err == nil {
+			_ = pprof.StartCPUProfile(f)
+			defer pprof.StopCPUProfile()
+		}
+	}
 	c12.Run(r)
+	pprof.StopCPUProfile()
 	r.Finish()
 }
